@@ -1,15 +1,17 @@
 #!/bin/bash
-# seed_eval.sh <seeded-dir> <check ids...> : applies the seeded patch to /repo, runs the checks
-# (quick tier), restores /repo. Prints "<seed> <check> rc=<rc>".
+# seed_eval.sh <seeded-dir> <check ids...> : applies the seeded patch to the repository, runs the
+# checks (quick tier unless TIER is set), restores the repository.
+# Prints "<seed> <check> rc=<rc> ...".  VERIF_REPO / VERIF_DIR select a snapshot (vp run).
+REPO=${VERIF_REPO:-/repo}; V=${VERIF_DIR:-/verif}
 S=$1; shift
-cd /repo || exit 2
-if ! git diff --quiet; then echo "/repo is dirty"; exit 2; fi
+cd $REPO || exit 2
+if ! git diff --quiet; then echo "$REPO is dirty"; exit 2; fi
 git apply "$S/patch.diff" || { echo "$S apply failed"; exit 2; }
 for c in "$@"; do
-  (cd /verif && timeout 1500 bin/check $c --tier ${TIER:-quick} > /tmp/seed_eval.$$.out 2>&1); rc=$?
-  echo "$(basename $S) $c rc=$rc $(grep -c '^VIOLATION' /tmp/seed_eval.$$.out) violations; $(grep -E '^\[C[0-9]+\] (READ|SCAN|STRUCT|META|HI|HIA|INVENT|LOST|SNAPRES|OPFAIL)' /tmp/seed_eval.$$.out | head -1 | cut -c1-150)"
+  (cd $V && timeout 2400 bin/check $c --tier ${TIER:-quick} > /tmp/seed_eval.$$.out 2>&1); rc=$?
+  echo "$(basename $S) $c rc=$rc $(grep -c '^VIOLATION' /tmp/seed_eval.$$.out) violations; $(grep -E '^\[C[0-9]+\] [A-Z]+ at step' /tmp/seed_eval.$$.out | head -1 | cut -c1-160)"
   grep -E "TOOL-ERROR" /tmp/seed_eval.$$.out | head -2
 done
 rm -f /tmp/seed_eval.$$.out
-git -C /repo checkout -- . 
-rm -rf /verif/replays/*
+git -C $REPO checkout -- .
+find $V/replays -type f -delete 2>/dev/null
